@@ -12,6 +12,10 @@ pub mod c10;
 pub mod c11;
 pub mod c14;
 pub mod c16;
+pub mod c17;
+pub mod c18;
+pub mod c19;
+pub mod c20;
 pub mod hist06;
 pub mod hist12;
 pub mod hist13;
@@ -45,6 +49,10 @@ pub fn plan(prop: &str, tier: Tier) -> Option<Plan> {
         "C14" => Some(c14::plan(tier)),
         "C15" => Some(quantile_plans::plan15(tier)),
         "C16" => Some(c16::plan(tier)),
+        "C17" => Some(c17::plan(tier)),
+        "C18" => Some(c18::plan(tier)),
+        "C20" => Some(c20::plan(tier)),
+        "C19" => Some(c19::plan(tier)),
         "C15x" => Some(quantile_plans::plan15(tier)),
         _ => None,
     }
